@@ -98,11 +98,20 @@ func (r *run) appImpl(a *appCap, ctx context.Context, call *server.Call) error {
 		// the question with one of the Conn's own exports): order of issue must be kept across the
 		// resolution - that is what the embargo is for
 		s.Probe("local_pipelined_call_delivered_locally")
-		if lc.seq+1 <= lc.base.delivered {
-			r.mfail("order", "rpc.go:(*Conn).handleReturn", fmt.Sprintf("local calls pipelined on local call %d: call #%d (token %d) reached the application after a later one (#%d) had", lc.base.token, lc.seq, token, lc.base.delivered-1))
+		if lc.path == 1 {
+			s.Probe("local_pipelined_call_on_second_pointer_delivered_locally")
+			if lc.base.npiped[1] > 1 {
+				s.Probe("several_local_calls_on_second_pointer_delivered_locally")
+			}
+			if lc.base.npiped[0] > 0 {
+				s.Probe("second_pointer_delivered_locally_with_first_pointer_called_too")
+			}
+		}
+		if lc.seq+1 <= lc.base.delivered[lc.path] {
+			r.mfail("order", "rpc.go:(*Conn).handleReturn", fmt.Sprintf("local calls pipelined on local call %d through result pointer %d: call #%d (token %d) reached the application after a later one (#%d) had", lc.base.token, lc.path, lc.seq, token, lc.base.delivered[lc.path]-1))
 			return nil
 		}
-		lc.base.delivered = lc.seq + 1
+		lc.base.delivered[lc.path] = lc.seq + 1
 	}
 	r.started = append(r.started, ac)
 	s.Logf("app cap %d: call token=%d flags=%b starts", a.id, token, flags)
